@@ -15,7 +15,11 @@ func init() {
 			c.Do("C04.c", "L3+L11 free contexts", 15, func() { clFreeContexts(c) })
 			c.Do("C04.d", "L2+L3 retire after unlink, single producer", 6, func() { clCollectionWorker(c, "C04.d"); clFreeFeed(c) })
 			c.Do("C04.e", "L1 overtaken insert stops linking", 1, func() { clInsertStopsWhenMarked(c) })
-			c.Do("C04.f", "L1+L5 winner-only flush, exactly one winner", 10, func() { clDeleteNodeWinner(c); clSoftDeleteTable(c) })
+			c.Do("C04.f", "L1+L5 winner-only flush, exactly one winner", 10, func() {
+				clDeleteNodeWinner(c)
+				clSoftDeleteTable(c)
+				clComparatorRoles(c, map[string]bool{"field:store": true})
+			})
 		},
 	})
 }
